@@ -7,15 +7,16 @@
 From FH Require Import Model.Base Gen.GenC06 Model.Ints Model.Cookie Spec.CookieSpec Proof.DateProof Proof.CookieProof Check.C06Check.
 Open Scope N_scope.
 
-(* no ';' CR LF survives in key, value, domain, path of a response cookie (any setter sequence, any normalizePath),
+(* no ';' CR LF survives in key, value, domain, path of a response cookie (any setter sequence incl. Reset and CopyTo from
+   a cookie that is itself the product of setters — cop_ok —, any normalizePath),
    nor in a request cookie's key or value; the stored text is the input with separators turned into spaces *)
 Theorem C06_setters_strip_separators :
-  (forall normalizePath ops, let c := crun normalizePath ops in
+  (forall normalizePath ops, Forall cop_ok ops -> let c := crun normalizePath ops in
      no_sep (ck_key c) = true /\ no_sep (ck_value c) = true /\ no_sep (ck_domain c) = true /\ no_sep (ck_path c) = true) /\
   (forall s, removeSemicolons (ByteClassModel.removeNewLines s) = clean s /\ no_sep (clean s) = true) /\
   (forall sets, jar_run sets = jar_of sets /\ Forall (fun kv => no_sep (fst kv) = true /\ no_sep (snd kv) = true) (jar_of sets)).
 Proof.
-  split; [intros np ops; exact (crun_ns np ops)|]. split; [intros s; split; [apply clean_model|apply clean_ns]|].
+  split; [intros np ops Hok; exact (crun_ns np ops Hok)|]. split; [intros s; split; [apply clean_model|apply clean_ns]|].
   intros sets. split; [apply jar_run_spec|apply jar_of_ns].
 Qed.
 Print Assumptions C06_setters_strip_separators.
@@ -29,10 +30,10 @@ Theorem C06_no_attribute_injection : forall c c',
 Proof. exact no_attribute_injection. Qed.
 Print Assumptions C06_no_attribute_injection.
 
-Corollary C06_no_attribute_injection_setters : forall normalizePath ops c',
+Corollary C06_no_attribute_injection_setters : forall normalizePath ops c', Forall cop_ok ops ->
   let c := crun normalizePath ops in
   (ck_maxAge c <= maxInt 64)%Z -> expire_ok c -> ParseBytes (Cookie_ c) = PCookie c' -> attrs_as_set c c'.
-Proof. intros np ops c' c. apply no_attribute_injection. apply crun_ns. Qed.
+Proof. intros np ops c' Hok c. apply no_attribute_injection. now apply crun_ns. Qed.
 Print Assumptions C06_no_attribute_injection_setters.
 
 (* the complete outcome of parsing what was serialised: the first pair, then each attribute group on its own; the only
@@ -54,6 +55,27 @@ Theorem C06_request_no_extra_cookie : forall sets,
     (forall p, In p seen -> exists kv, In kv (jar_of sets) /\ p = seen_pair kv).
 Proof. intros sets. split; [apply request_cookies_exact|apply request_no_extra_cookie]. Qed.
 Print Assumptions C06_request_no_extra_cookie.
+
+(* (b') the request jar under every operation of the API — SetCookie, DelCookie, DelAllCookies and raw Cookie header
+   lines given to Set/Add: its content never holds a separator, the server reads exactly its pairs (as above), and
+   without raw lines the keys are distinct and there are at most as many cookies as SetCookie calls *)
+Theorem C06_request_jar_ops : forall ops,
+  let j := jrun ops in
+  Forall (fun kv => no_sep (fst kv) = true /\ no_sep (snd kv) = true) j /\
+  parseRequestCookies [] (appendRequestCookieBytes [] j) =
+    Some (flat_map (fun kv => if keep (seen_pair kv) then [seen_pair kv] else []) j) /\
+  (Forall no_raw ops -> NoDup (map fst j) /\ (length j <= length (filter is_jset ops))%nat).
+Proof. intros ops j. split; [apply jrun_ns|]. split; [apply request_jar_exact, jrun_ns|apply jrun_keys]. Qed.
+Print Assumptions C06_request_jar_ops.
+
+(* (a') the response jar under SetCookie / DelCookie / DelClientCookie / DelAllCookies: one entry per distinct key,
+   each entry's value is verbatim the serialisation of a cookie that was given to SetCookie (or the deletion cookie), so
+   C06_no_attribute_injection applies to every Set-Cookie line; never more entries than cookies given *)
+Theorem C06_response_jar : forall ops, Forall rjop_ok ops ->
+  Forall (fun kv => exists c, In c (rj_cookies ops) /\ cookie_ns c /\ snd kv = Cookie_ c) (rjrun ops) /\
+  NoDup (map fst (rjrun ops)) /\ (length (rjrun ops) <= length (rj_cookies ops))%nat.
+Proof. exact rjrun_entries. Qed.
+Print Assumptions C06_response_jar.
 
 (* (c) exact round trip for cookie-octet values/domains and token keys (expiry to the second) *)
 Theorem C06_roundtrip_octets :
